@@ -30,6 +30,7 @@ func init() {
 		Assumptions: []string{"resource.Value/Collection write semantics (C02, C05)", "unitpb.Convert32 arithmetic (C18)"},
 		Run:         runC20,
 		Controls: []Control{
+			{Name: "add-child-overwrites", File: "pkg/trait/parentpb/model.go", Old: "m.children.Add(child.Name, child)", New: "m.children.Update(child.Name, child, resource.WithCreateIfAbsent())", Expect: "R20.22"},
 			{Name: "refused-dispense-merged-without-reset", File: "pkg/trait/vendingpb/model.go", Old: "\t\t\tproto.Reset(newVal)\n\t\t\tproto.Merge(newVal, oldVal)\n", New: "\t\t\tproto.Merge(newVal, oldVal)\n", Expect: "R20.21"},
 			{Name: "revert-F66-step-added-unreduced", File: "pkg/trait/modepb/model_server.go", Old: "newI := (int32(i) + adjustment%int32(len(values))) % int32(len(values))", New: "newI := (int32(i) + adjustment) % int32(len(values))", Expect: "R20.20"},
 			{Name: "zero-amount-converts-between-anything", File: "pkg/trait/vendingpb/unitpb/convert.go", Old: "\tif from == to {\n\t\treturn v, nil", New: "\tif from == to || v == 0 {\n\t\treturn v, nil", Expect: "R20.14"},
@@ -69,6 +70,8 @@ func runC20(c *an.Ctx) {
 	r2017(c, "R20.17")
 	r2018(c, "R20.18")
 	c.Min("R20.18", 3)
+	r2022(c, "R20.22")
+	c.Min("R20.22", 1)
 	r2021(c, "R20.21")
 	c.Min("R20.21", 1)
 	r2020(c, "R20.20")
@@ -528,8 +531,9 @@ func r204(c *an.Ctx) {
 						if k, isC := e.(*ssa.Const); isC && k.Value != nil && k.Value.ExactString() == "0" {
 							pred := phi.Block().Preds[i]
 							for _, g := range an.GuardingEdges(pred.Instrs[0]) {
-								if bo, ok := g.If.Cond.(*ssa.BinOp); ok && bo.Op == token.LSS && g.Branch {
-									if k2, isC := bo.Y.(*ssa.Const); isC && k2.Value != nil && k2.Value.ExactString() == "0" {
+								// amount < 0, however it is spelt (0 > amount, !(amount >= 0))
+								if _, hi, strict, isOrd := an.OrderFact(g); isOrd && strict {
+									if k2, isC := hi.(*ssa.Const); isC && k2.Value != nil && k2.Value.ExactString() == "0" {
 										okFloor = true
 									}
 								}
@@ -2465,4 +2469,45 @@ func r2021(c *an.Ctx, rule string) {
 	if n == 0 {
 		c.Unk(rule, "pkg/trait/vendingpb|restore on refusal", 0, "no proto.Merge(new, old) found in an interceptor of the vending package")
 	}
+}
+
+// r2022: AddChild adds a child that is not there yet and leaves an existing one as it is - its trait list is the
+// accumulated union/difference of AddChildTrait / RemoveChildTrait, which an overwriting write would throw away.
+// The model's write in AddChild is Collection.Add (expect-absent), or an Update that carries WithExpectAbsent.
+func r2022(c *an.Ctx, rule string) {
+	fn := mustFunc(c, rule, "pkg/trait/parentpb", "Model", "AddChild")
+	if fn == nil {
+		return
+	}
+	name := an.FuncName(fn)
+	c.SawFunc(name)
+	n, ok := 0, true
+	for _, f := range append([]*ssa.Function{fn}, an.TransparentCalleesOf(fn, 1)...) {
+		an.Instrs(f, func(in ssa.Instruction) {
+			call, isCall := in.(*ssa.Call)
+			if !isCall {
+				return
+			}
+			cn := an.CalleeName(call)
+			switch {
+			case strings.HasSuffix(cn, "pkg/resource.Collection).Add"):
+				n++
+			case strings.HasSuffix(cn, "pkg/resource.Collection).Update"):
+				n++
+				expectAbsent := false
+				for _, e := range variadicElems(call.Call.Args[len(call.Call.Args)-1]) {
+					for _, s := range an.Sources(e) {
+						if oc, isC := s.(*ssa.Call); isC && strings.HasSuffix(an.CalleeName(oc), "pkg/resource.WithExpectAbsent") {
+							expectAbsent = true
+						}
+					}
+				}
+				if !expectAbsent {
+					ok = false
+				}
+			}
+		})
+	}
+	c.Check(ok && n > 0, rule, name+"|an existing child is left as it is", fn.Pos(), "written with Collection.Add / WithExpectAbsent",
+		"AddChild writes the child with an Update that does not expect it to be absent: an existing child is overwritten and the traits accumulated by AddChildTrait/RemoveChildTrait are lost")
 }
